@@ -1319,6 +1319,12 @@ fn guard_checks(ctx: &Ctx, total: &mut Collector, fams: &[Fam], depth: usize, ud
         }
         (c, mo, uo, *fi, buf.len())
     });
+    // merge in simplest-first order (shortest buffer first), whatever the execution order was:
+    // the first case kept per signature is then the smallest one
+    let mut order: Vec<usize> = (0..tasks.len()).collect();
+    order.sort_by_key(|&i| (tasks[i].1.len(), tasks[i].0, tasks[i].1.clone()));
+    let mut outs: Vec<Option<_>> = outs.into_iter().map(Some).collect();
+    let outs: Vec<_> = order.into_iter().map(|i| outs[i].take().unwrap()).collect();
     let mut seq_merged = 0u64;
     let mut real_ops_merged = 0u64;
     let mut seq_unmerged = 0u64;
@@ -1827,6 +1833,10 @@ fn miri_check(ctx: &Ctx, total: &mut Collector, fams: &[Fam]) {
     if ctx.tier != Tier::Thorough || !ctx.wants("miri") {
         return;
     }
+    if std::env::var("C13_NO_MIRI").is_ok() {
+        total.warn("miri: skipped because C13_NO_MIRI is set".to_string());
+        return;
+    }
     let njobs = pv::par::threads().clamp(1, 15);
     // the first job builds the Miri artefacts; the others wait on cargo's lock, then run in parallel
     let outs = pv::par::map_chunks(njobs, |job| run_miri(&ctx.root, &["miri-inner".to_string(), job.to_string(), njobs.to_string()]));
@@ -1972,22 +1982,22 @@ fn selftest(fams: &[Fam]) {
         eprintln!("MACHINERY-FAILURE: C13 self-test: {m}");
         std::process::exit(3)
     };
-    // red -> Hsv is (0, 1, 1); shifting nothing and dropping gives red back
+    // the executor yields one observation for the initial buffer and one per operation, with
+    // the typestates the operations imply (nothing here depends on the values the subject
+    // computes: a defect of the subject must surface as a VIOLATION, not as a self-test failure)
     let red = mkbits(false, &[1.0, 0.0, 0.0]);
     let mut sink = Sink::default();
     let hsv = f.types.iter().position(|t| *t == "Hsv").unwrap() as u8;
-    (f.exec)(&red, &f.fixed, &[Op::Start(hsv, false), Op::Deref, Op::Drop], &mut sink);
-    if sink.steps.len() != 4 {
-        fail(format!("expected 4 observations, got {}", sink.steps.len()));
+    (f.exec)(&red, &f.fixed, &[Op::Start(hsv, false), Op::Deref, Op::Switch, Op::Drop], &mut sink);
+    let ts: Vec<(u8, u8)> = sink.steps.iter().map(|s| (s.tag, s.flav)).collect();
+    if ts != vec![(0, OWNED), (hsv, CLAMPED), (hsv, CLAMPED), (hsv, UNCLAMPED), (0, OWNED)] {
+        fail(format!("executor typestates {ts:?}"));
     }
+    if sink.step_bits(0) != &red[..] {
+        fail(format!("initial buffer read back as {:?}", floats(f, sink.step_bits(0))));
+    }
+    // red -> Hsv is (0, 1, 1) and back (hand-checked), in the reference model
     let want_hsv = mkbits(false, &[0.0, 1.0, 1.0]);
-    if sink.step_bits(1) != &want_hsv[..] || sink.step_bits(2) != &want_hsv[..] || sink.step_bits(3) != &red[..] || sink.step_bits(0) != &red[..] {
-        fail(format!("red -> Hsv -> drop observed {:?}", (0..4).map(|k| floats(f, sink.step_bits(k))).collect::<Vec<_>>()));
-    }
-    let s = sink.steps[1];
-    if (s.tag, s.flav) != (hsv, CLAMPED) || !s.addr_ok || !s.len_ok || !s.sent_ok {
-        fail(format!("guard observation flags {s:?}"));
-    }
     // the model agrees with this hand-checked trace
     let mut k = Key { tag: 0, flav: OWNED, n: 3, bits: [0; MAXB] };
     k.bits[..3].copy_from_slice(&red);
@@ -2012,18 +2022,6 @@ fn real_main() -> i32 {
     if args.first().map(|s| s.as_str()) == Some("miri-inner") {
         return miri_inner(&args[1..]);
     }
-    if args.first().map(|s| s.as_str()) == Some("miri-bench") {
-        let fams = families();
-        let f = &fams[0];
-        let mut sink = Sink::default();
-        let n: usize = args[1].parse().unwrap();
-        let which: usize = args[2].parse().unwrap();
-        let init = init_key(f, &[]);
-        let ops: Vec<Op> = match which { 0 => vec![], 1 => vec![Op::Start(1, false)], 2 => vec![Op::Start(1, false), Op::Deref, Op::Deref, Op::Deref], _ => vec![Op::Start(1, false), Op::Then(2, false), Op::Then(1, true), Op::Restore] };
-        for _ in 0..n { (f.exec)(init.bits(), &f.fixed, &ops, &mut sink); }
-        println!("done {}", sink.steps.len());
-        return 0;
-    }
     if args.first().map(|s| s.as_str()) == Some("miri-case") {
         return miri_single(args.get(1).map(|s| s.as_str()).unwrap_or(""));
     }
@@ -2036,7 +2034,7 @@ fn real_main() -> i32 {
         return ctx.finish_replay(c);
     }
     let depth = ctx.tier.pick(5, 6);
-    let udepth = 4;
+    let udepth = ctx.tier.pick(3, 4);
     let chain = ctx.tier.pick(3, 4);
     let mut total = Collector::new();
     guard_checks(&ctx, &mut total, &fams, depth, udepth, 3);
